@@ -259,9 +259,6 @@ Proof.
   pose proof (RN_err60 t 1 A) as E. pow2. lra.
 Qed.
 
-Lemma RN_t_le1 t : (t <= 1)%R -> (RN t <= 1)%R.
-Proof. intros H. rewrite <- RN_1. apply RN_le. exact H. Qed.
-
 Lemma RN_le_int x z : small z -> (x <= IZR z)%R -> (RN x <= IZR z)%R.
 Proof. intros S H. rewrite <- (RN_int z S). apply RN_le. exact H. Qed.
 Lemma RN_ge_int x z : small z -> (IZR z <= x)%R -> (IZR z <= RN x)%R.
@@ -673,7 +670,7 @@ Proof.
   set (t1 := ky * (lx - cx)) in *. set (t2 := ky * (hx - cx)) in *.
   set (t3 := - kx * (ly - cy)) in *. set (t4 := - kx * (hy - cy)) in *.
   clearbody F t1 t2 t3 t4.
-  Time destruct Rx as [-> | ->], Ry as [-> | ->]; lia.
+  destruct Rx as [-> | ->], Ry as [-> | ->]; lia.
 Qed.
 
 
@@ -860,10 +857,6 @@ Proof.
   rewrite Z.shiftr_div_pow2 by lia. change (2 ^ 1) with 2.
   pose proof (Z.div_mod e 2 ltac:(lia)). pose proof (Z.mod_pos_bound e 2 ltac:(lia)). lia.
 Qed.
-Lemma origin_form x1 x2 x3 x4 e :
-  e = Z.min (Z.max x3 x4) (Z.max x1 x2) + Z.max (Z.min x2 x1) (Z.min x4 x3) ->
-  e = Z.max (Z.min x1 x2) (Z.min x3 x4) + Z.min (Z.max x1 x2) (Z.max x3 x4).
-Proof. lia. Qed.
 Lemma origin_swap x1 x2 x3 x4 :
   Z.max (Z.min x1 x2) (Z.min x3 x4) + Z.min (Z.max x1 x2) (Z.max x3 x4) =
   Z.max (Z.min x3 x4) (Z.min x1 x2) + Z.min (Z.max x3 x4) (Z.max x1 x2).
